@@ -263,6 +263,7 @@ func (s e19SeqKey) key(c *Ctx, fn *ssa.Function, detail string) string {
 
 func e19NewBounds(c *Ctx) *core.Bounds {
 	e := core.NewBounds(c.P)
+	fixedViewCallers = c.P.RealCallers
 	if os.Getenv("CSVQSA_TRACE") != "" {
 		e.Trace = func(s string) { fmt.Fprintln(os.Stderr, s) }
 	}
